@@ -59,7 +59,13 @@ def main(tier):
     lo_v, hi_v = (2.0**-20, 2.0**40) if tier == 'quick' else (2.0**-60, 2.0**80)
     lo_r, hi_r = (2.0**-10, 2.0**20) if tier == 'quick' else (2.0**-30, 2.0**30)
     rng = [absr(value) >= lo_v, absr(value) <= hi_v, ratio >= lo_r, ratio <= hi_r]
-    exe.base = list(rng)
+    # the tokenizer's contract for integer literals N: value = N rounded to f32, int_value = Some(N clamped to i32)
+    N = z3.Int('literal_int')
+    s['N'] = N
+    tokenizer = z3.Implies(s['int_some'], z3.And(absr(value - z3.ToReal(N)) <= U * absr(z3.ToReal(N)),
+                                                 z3.Implies(z3.And(N >= -2**24, N <= 2**24), value == z3.ToReal(N)),
+                                                 s['int_val'] == z3.If(N > 2**31 - 1, 2**31 - 1, z3.If(N < -2**31, -2**31, N))))
+    exe.base = list(rng) + [tokenizer]
     done = exe.run(fn.name, args, p0)
     res.solver_time += exe.stats['solver_time']
     res.functions.append({'fn': 'write_maybe_rpx_dimension(&mut StepParser, &mut StyleSheetTransformer, &StepToken, bool, f32, Option<i32>, &CowRcStr)',
@@ -68,7 +74,8 @@ def main(tier):
     res.bounds = {'|value|': [lo_v, hi_v], 'ratio': [lo_r, hi_r],
                   'float_model': 'each f32 operation = exact result * (1+delta), |delta| <= 2^-24 (normal range, no overflow/underflow inside the stated ranges)'}
     res.assumptions = ['append_token is an event (its argument terms are compared)', 'f32::round / abs by their definition (exact)',
-                       'CowRcStr deref/clone/into are identities on the string value', 'rpx_ratio > 0 (property quantifier)']
+                       'CowRcStr deref/clone/into are identities on the string value', 'rpx_ratio > 0 (property quantifier)',
+                       'tokenizer contract: for an integer literal N, value = N rounded to f32 and int_value = Some(N clamped to i32); otherwise int_value = None']
     res.outside = ['re-serialisation of numbers by cssparser ToCss (6 significant digits; known lossy for integers > 6 digits, see DESIGN §8)',
                    'subnormal / overflowing products outside the stated ranges', 'tokenisation of the number text']
     returned = [p for p in done if p.status == 'returned']
@@ -190,7 +197,10 @@ def confirm(res, exe, desc, cls, asserts, model, s):
         # prefer a witness whose deviation survives the 6-digit print of the output
         v = f32(real_of(model, s['value']))
         r = f32(real_of(model, s['ratio']))
-        cands = [(v, r), (7.5, 750.0), (75.0, 750.0), (3.0, 750.0), (1.0, 100.0), (1.0, 3.0), (-33.5, 7.0), (123456.0, 750.0),
+        first = (v, r)
+        if z3.is_true(model.eval(s['int_some'], model_completion=True)):
+            first = (model.eval(s['N'], model_completion=True).as_long(), r)      # spelled as an integer literal
+        cands = [first, (7.5, 750.0), (75.0, 750.0), (3.0, 750.0), (1.0, 100.0), (1.0, 3.0), (-33.5, 7.0), (123456.0, 750.0),
                  (0.25, 1000.0), (1.5, 1.0), (640.0, 2.0)]
         for (v, r) in cands:
             if v == 0 or r <= 0:
@@ -199,6 +209,7 @@ def confirm(res, exe, desc, cls, asserts, model, s):
             m = re.match(r'a\{b:(-?[0-9.eE+\-]+)vw\}', out.get('normal', ''))
             if not m:
                 continue
+            v = float(v)
             got = float(m.group(1))
             expect_f32 = f32(f32(f32(v) * f32(100.0)) / f32(r))       # the property's formula, evaluated in f32
             shown = float('%.6g' % expect_f32)                          # cssparser prints at most 6 significant digits
@@ -234,7 +245,7 @@ def validate(res, exe, returned, s):
         for p in returned:
             ev = [e for e in p.events if e[0] == 'out'][0]
             tok = ev[3].fields[0]
-            verdict, model, dt = smt.decide(exe.base[2:] + p.pc + [s['value'] == z3.RealVal(repr(v)), s['ratio'] == z3.RealVal(repr(r)),
+            verdict, model, dt = smt.decide(exe.base[2:4] + p.pc + [z3.Not(s['int_some']), s['value'] == z3.RealVal(repr(v)), s['ratio'] == z3.RealVal(repr(r)),
                                                          s['unit'] == z3.StringVal(unit)] +
                                             [d == 0 for d in p.env.get('deltas', ())])
             if verdict == 'sat':
